@@ -186,7 +186,8 @@ class Executor(CallMixin, EvalMixin, ExprMixin, StmtMixin):
             st.alloc = fresh("alloc0", T.Int); st.assume(st.alloc >= 1)
         for n in names + ([vararg] if vararg else []):
             if n not in c.params:
-                if n == "verbose": continue
+                if n == "verbose":
+                    st.env[n] = SV(T.Bool, fresh("verbose", T.Bool)); continue
                 raise VCError("%s: parameter %s has no declared type" % (c.qual, n))
             ty = c.params[n]
             if isinstance(ty, tuple) and ty[0] == "display":
@@ -255,7 +256,8 @@ class Executor(CallMixin, EvalMixin, ExprMixin, StmtMixin):
         if c.yields is not None:
             s.env["result"] = st.env["__yielded__"]
         elif c.returns != T.NoneT:
-            if val is None or val.ty == T.NoneT and not isinstance(c.returns, T.Opt):
+            if val is None: val = SV(T.NoneT, z3.BoolVal(True))
+            if val.ty == T.NoneT and not isinstance(c.returns, T.Opt):
                 self.oblige(st, z3.BoolVal(False), "returns-None-but-contract-says-%s" % c.returns, fnode)
                 return
             s.env["result"] = self.coerce(val, c.returns)
